@@ -47,7 +47,7 @@ add = prop("C17", "c17",
  "longer bit vectors; superblock factors > 2; WaveletMatrix::rank",
  ["bit vectors are built through BitVec::new_fill(false, n) + set(i, b): padding bits of the last byte are zero, as the API leaves them"])
 for n, t in [(1, 19), (7, 28), (8, 24), (9, 42), (31, 152), (33, 170)]:
-    add(f"c17_rank_n{n}_k1", t, f"rank_1/rank_0/get, n={n} bits, k=1, all contents, i in [0,n+1]")
+    add(f"c17_rank_n{n}_k1", t, f"rank_1/rank_0/get, n={n} bits, k=1, all contents, i in [0,n+1]", **({"min_covers": 1} if n <= 8 else {}))
 for n, k, t in [(40, 1, 219), (65, 1, 464), (65, 2, 611), (72, 2, 563)]:
     add(f"c17_rank_n{n}_k{k}", t, f"rank_1/rank_0/get, n={n} bits, k={k}", tier="thorough")
 for n, t in [(1, 209), (7, 243), (8, 245), (9, 208)]:
@@ -67,10 +67,10 @@ add("c20_dna_revcomp_n1", 70, "dna::revcomp, length 1, all bytes")
 add("c20_dna_revcomp_n3", 70, "dna::revcomp, length 3, all bytes")
 add("c20_rna_revcomp_n3", 66, "rna::revcomp, length 3, all bytes")
 add("c20_dna_revcomp_n4", 71, "dna::revcomp, length 4, all bytes", tier="thorough")
-add("c20_gc_n1", 2, "gc_content/gc3_content, length 1")
-add("c20_gc_n4", 2, "gc_content/gc3_content, length 4")
-add("c20_gc_n6", 3, "gc_content/gc3_content, length 6")
-add("c20_gc_n7", 4, "gc_content/gc3_content, length 7")
+add("c20_gc_n1", 2, "gc_content/gc3_content, length 1", min_covers=1)
+add("c20_gc_n4", 2, "gc_content/gc3_content, length 4", min_covers=2)
+add("c20_gc_n6", 3, "gc_content/gc3_content, length 6", min_covers=2)
+add("c20_gc_n7", 4, "gc_content/gc3_content, length 7", min_covers=2)
 
 # ---------------------------------------------------------------------------------------------------------------- C08
 add = prop("C08", "c08",
@@ -107,12 +107,12 @@ for h, t, b, tier in [
  ("c05_bs_n5_m2_multi", 13, "n=5, second sentinel at a symbolic position, m=2", "quick"), ("c05_bs_n6_m3_multi", 21, "n=6, two sentinels, m=3", "quick"),
  ("c05_bs_n3_m4", 10, "n=3, m=4 (pattern longer than text)", "quick"),
 ]:
-    add(h, t, b, tier=tier)
+    add(h, t, b, tier=tier, **({"min_covers": 2} if h in ("c05_bs_n4_m1", "c05_bs_n3_m4") else {}))
 
 # ---------------------------------------------------------------------------------------------------------------- C09
 add = prop("C09", "c09",
  "Bounded model checking of the real single-word Myers matcher (u8/u16/u32/u64 words) and of distance()/find_best_end() of the block-based matcher: for each listed (pattern length m, text length n, alphabet) ALL pattern/text contents and ALL thresholds k<=m+1 are covered by one solver query; find_all_end must yield exactly the (end, d) pairs of a textbook semi-global edit-distance DP with d<=k, in text order, distance() the minimum and find_best_end() the first argmin.",
- "Bound: Myers<u8> m in {1,3,7,8}, n<=5; Myers<u16> m in {3,16}; Myers<u32> m in {3,32}; Myers<u64> m in {3,63,64} (two-symbol alphabets for the full-width patterns); long::Myers<u8>::{distance,find_best_end} at m in {3,9}, n<=2. " + TRUST + "Not decided: long::Myers::find_all_end (per-column Vec<State> growing/truncating under symbolic conditions: out of memory at m=9,n=1), Ukkonen (out of memory at m=2,n=3), MyersBuilder ambiguity maps (std HashMap), distance::{hamming,levenshtein,simd::*} (editdistancek / triple_accel: timeout at 2x2, SIMD intrinsics unmodelled).",
+ "Bound: Myers<u8> m in {1,3,7,8}, n<=5; Myers<u16> m in {3,16}; Myers<u32> m in {3,32}; Myers<u64> m in {3,63,64} (two-symbol alphabets for the full-width patterns); long::Myers<u8>::{distance,find_best_end} at m=3,n=2 and m=9 (two blocks),n=1. " + TRUST + "Not decided: long::Myers::find_all_end (per-column Vec<State> growing/truncating under symbolic conditions: out of memory at m=9,n=1), Ukkonen (out of memory at m=2,n=3), MyersBuilder ambiguity maps (std HashMap), distance::{hamming,levenshtein,simd::*} (editdistancek / triple_accel: timeout at 2x2, SIMD intrinsics unmodelled).",
  ["bio::pattern_matching::myers::Myers<T>::{new,new_ambig,_step,step,initial_state,distance,find_all_end,find_best_end} for T in {u8,u16,u32,u64}", "myers::myers_impl::Matches::next", "myers::State::{init,known_dist}", "bio::pattern_matching::myers::long::Myers<u8>::{new,distance,find_best_end}", "long::States::{new,add_state,step,known_dist}", "long::advance_block"],
  "see level_note", "patterns/texts beyond the listed sizes; ambiguity/wildcard tables; Ukkonen; the distance module", [])
 for h, t, b, tier in [
@@ -124,9 +124,8 @@ for h, t, b, tier in [
  ("c09_myers_u64_m63_n2_a2", 556, "Myers<u64> m=63 n=2, bytes<2", "thorough"), ("c09_myers_u64_m64_n2_a2", 588, "Myers<u64> m=64 (full word) n=2, bytes<2", "thorough"),
  ("c09_long_u8_dist_m3_n2_a2", 25, "long::Myers<u8> distance/find_best_end, m=3 (1 block) n=2", "quick"),
  ("c09_long_u8_dist_m9_n1_a2", 31, "long::Myers<u8> distance/find_best_end, m=9 (2 blocks) n=1", "quick"),
- ("c09_long_u8_dist_m9_n2_a2", 29, "long::Myers<u8> distance/find_best_end, m=9 (2 blocks) n=2", "quick"),
 ]:
-    add(h, t, b, tier=tier, role="long_distance" if "long" in h else "myers_simple")
+    add(h, t, b, tier=tier, role="long_distance" if "long" in h else "myers_simple", **({} if "long" in h else {"min_covers": 2}))
 
 json.dump(P, open(os.path.join(V, "instances.json"), "w"), indent=1)
 print({k: len(v["instances"]) for k, v in P.items()})
